@@ -83,6 +83,8 @@ def parse_modifies(run, texts, env, fi=None, dyn_cls=None):
             if isinstance(v, Ref):
                 out.append(('field', v.loc, m.group(2)))
                 continue
+            if isinstance(v, NoneV):
+                continue        # a field of an absent (None) sub-object: nothing to modify
         raise Unsupported('modifies clause %r' % t)
     return out
 
